@@ -31,6 +31,8 @@ RULE = (
     'activation in which it was issued. '
     'non-trivial = pair completed without the clock advancing; distinct = (pair, k, surrounding)'
 )
+RULE = RULE + (' Further pairs: spans the clock absorbs, leaving a Scope whose abort is pending; in general programs an operation completes only after everything that was runnable when it was issued had its turn.')
+
 LEVEL_TEXT = (
     'Exploration by runtime monitoring: for every listed operation in every state in which it '
     'can complete without waiting, spinner activities that are runnable at that moment count '
